@@ -167,3 +167,42 @@ func VH_C08_refused_overwrite(kind, odd, isRule int) {
 	vassert(gerr != nil, "storage-agrees-after-reload")
 	vreach("end")
 }
+
+// VH_C08_expired_at_load: deletion by expiry cascades like any other deletion, also when
+// the expiry is noticed while the location is loaded from storage: item a expires, the
+// location is reloaded after that instant, a is observed; its dependent d (and, for a
+// rule, its disabled flag) is gone from the reloaded location and from storage.
+func VH_C08_expired_at_load(kind, isRule int) {
+	env := vhNewEnv(kind)
+	t0 := int64(1600000000)
+	vsetNow(t0 * 1000000000)
+	if isRule == 1 {
+		r := vhRule(map[string]interface{}{"tag": "?x"}, "act")
+		r["expires"] = float64(t0 + 10)
+		_, err := env.loc.AddRule(env.ctx, "a", r)
+		vassume(err == nil)
+		vassume(env.loc.EnableRule(env.ctx, "a", false) == nil)
+	} else {
+		_, err := env.loc.AddFact(env.ctx, "a", Map{"n": "1", "expires": float64(t0 + 10)})
+		vassume(err == nil)
+	}
+	_, err := env.loc.AddFact(env.ctx, "d", Map{"tag": "t", KW_DeleteWith: []interface{}{"a"}})
+	vassume(err == nil)
+	vsetNow((t0 + 20) * 1000000000)
+	re := vhOpenEnv(kind, env.ctx, env.store, env.name)
+	_, gerr := re.state.Get(re.ctx, "a")
+	vassert(gerr != nil, "expired-item-not-observable")
+	_, gerr = re.state.Get(re.ctx, "d")
+	vassert(gerr != nil, "deleted-iff-transitive-dependent")
+	if isRule == 1 {
+		// a rule added later under the same id starts out enabled
+		_, err = re.loc.AddRule(re.ctx, "a", vhRule(map[string]interface{}{"tag": "?x"}, "act"))
+		vassert(err == nil, "addrule-succeeds")
+		on, eerr := re.loc.RuleEnabled(re.ctx, "a")
+		vassert(eerr == nil && on, "flag-disappears-with-the-rule")
+	}
+	re2 := vhOpenEnv(kind, env.ctx, env.store, env.name)
+	_, gerr = re2.state.Get(re2.ctx, "d")
+	vassert(gerr != nil, "storage-agrees-after-reload")
+	vreach("end")
+}
